@@ -390,6 +390,62 @@ def wide_mixture_case(ctx, k):
         ctx.violation('c07-contract', 'sample on a mixed batch left entries unfilled or changed evidence', replay=rep)
 
 
+def zero_weight_case(ctx, k):
+    """a mixture with a component of weight EXACTLY zero (what EM or a user's pruning of a mixture leaves behind) and evidence that
+    this dead component explains far better than the live ones (seven observed near-deterministic variables, or a Gaussian several
+    sigma away): the exact conditional gives the dead component probability 0, whatever the evidence — no sample may follow it"""
+    rs = np.random.RandomState(np_seed(ctx.sub_rng('zero-weight', k)))
+    gauss = (k % 2 == 1)
+    if gauss:
+        live = [Product(children=[Gaussian(0, float(rs.uniform(-1, 1)), 1.0), Bernoulli(1, float(rs.uniform(0.05, 0.3)))]) for _ in range(2)]
+        dead = Product(children=[Gaussian(0, 9.0, 1.0), Bernoulli(1, 0.95)])
+        ev = [9.0, None]
+        target, p_dead = 1, 0.95
+    else:
+        nb = 8
+        live = [Product(children=[Bernoulli(v, float(rs.uniform(0.02, 0.08))) for v in range(nb - 1)] + [Bernoulli(nb - 1, float(rs.uniform(0.1, 0.4)))]) for _ in range(2)]
+        dead = Product(children=[Bernoulli(v, 0.97) for v in range(nb - 1)] + [Bernoulli(nb - 1, 0.9)])
+        ev = [1.0] * (nb - 1) + [None]
+        target, p_dead = nb - 1, 0.9
+    pos = int(rs.randint(0, 3))
+    ch = live[:pos] + [dead] + live[pos:]
+    wl = rs.dirichlet(np.ones(2))
+    w = list(wl[:pos]) + [0.0] + list(wl[pos:])
+    root = assign_ids(Sum(children=ch, weights=np.array(w, dtype=np.float32)))
+    n = 4000
+    X = np.repeat(np.array([[np.nan if t is None else t for t in ev]], dtype=np.float32), n, axis=0)
+    # exact conditional of the target variable given the evidence: mixture of the LIVE components, weighted by weight x evidence likelihood
+    import math as _m
+    num = den = 0.0
+    for c, wi in zip(ch, w):
+        if wi == 0.0:
+            continue
+        le = 1.0
+        for lf in c.children:
+            v = lf.scope[0]
+            if ev[v] is None:
+                continue
+            le *= (_m.exp(-0.5 * (ev[v] - lf.mean) ** 2) / _m.sqrt(2 * _m.pi)) if isinstance(lf, Gaussian) else (float(lf.p) if ev[v] == 1.0 else 1.0 - float(lf.p))
+        pt = [float(lf.p) for lf in c.children if lf.scope[0] == target][0]
+        num += wi * le * pt
+        den += wi * le
+    exact = num / den
+    ctx.count('zero-weight-mixtures')
+    ctx.case('zero-weight', nontrivial_key=('zero-weight', k), sample=dict(gaussian_evidence=gauss, dead_child_position=pos))
+    rep = dict(kind='c07-zero-weight', k=k, seed=ctx.seed)
+    np.random.seed(int(rs.randint(2 ** 31 - 1)))
+    try:
+        Y = sample(root, X)
+    except Exception as ex:
+        ctx.violation(f'c07-raises:{type(ex).__name__}', f'sample raised {type(ex).__name__}: {str(ex)[:160]} on a mixture with a zero-weight component', replay=rep)
+        return
+    f = float(np.mean(Y[:, target]))
+    eps = _m.sqrt(_m.log(2.0 * 64 / 1e-9) / (2.0 * n))
+    if abs(f - exact) > eps:
+        ctx.violation('c07-zero-weight', f'mixture with a component of weight exactly 0 that explains the evidence {ev} best: sampled frequency of x{target}=1 is {f:.4f}, '
+                      f'the exact conditional (live components only) gives {exact:.4f} (the dead component would give {p_dead}); N={n}, bound {eps:.4f}', replay=rep)
+
+
 def run(ctx):
     quick = ctx.tier == 'quick'
     n_draws = 200000 if quick else 1000000
@@ -407,6 +463,10 @@ def run(ctx):
             break
     for k in range(2 if quick else 20):
         wide_mixture_case(ctx, k)
+        if ctx.n_new(with_input_only=True) >= 3:
+            break
+    for k in range(4 if quick else 40):
+        zero_weight_case(ctx, k)
         if ctx.n_new(with_input_only=True) >= 3:
             break
     preds = [p for n in range(2, 5) for p in C.all_pred_vectors(n)]
@@ -444,6 +504,14 @@ def run(ctx):
 
 
 def replay(rep):
+    if rep['replay'].get('kind') == 'c07-zero-weight':
+        from harness.common import Ctx
+        ctx = Ctx('C07', 'quick', rep['replay']['seed'])
+        ctx.driver_ok = False
+        zero_weight_case(ctx, rep['replay']['k'])
+        for v in ctx.violations:
+            print('  ', v['what'][:300])
+        return not ctx.violations
     if rep['replay'].get('kind') == 'c07-wide':
         from harness.common import Ctx
         ctx = Ctx('C07', 'quick', rep['replay']['seed'])
